@@ -685,6 +685,83 @@ def stage_calls_leave_defaults(ctx: Ctx):
         FST.set_options(**start)
 
 
+HIST_VALUES = [(False, True), (0, True), (True, True), (1, True), (False, False), (0, False), (True, 'line'), (1, 'line'), ('all', True), ('block', 1), (2, True), (True, 2), ('all', 0), ('all', False),
+               (3, 3), (True, False), (1, 0), 0, False, 1, True, 'all', 'block', (False, 1), (False, True)]
+HIST_SRC = 'x = 0\n\n# c0\n\n# c1\n# c2\na = 1  # own\n# after\n\n# later\nb = 2\n'
+HIST_CHILD = r'''
+import sys, json
+import fst
+src, values = json.loads(sys.stdin.read())
+def conv(v):
+    return tuple(v) if isinstance(v, list) else v
+out = []
+for v in values:
+    v = conv(v)
+    res = []
+    for act in ('cut', 'copy', 'replace', 'put_slice'):
+        root = fst.FST(src, 'exec')
+        try:
+            if act == 'cut':
+                r = root.body[1].cut(trivia=v).src
+            elif act == 'copy':
+                r = root.body[1].copy(trivia=v).src
+            elif act == 'replace':
+                root.body[1].replace('z = 9', trivia=v); r = None
+            else:
+                root.put_slice('z = 9', 1, 2, 'body', trivia=v); r = None
+            res.append([r, root.src])
+        except Exception as e:
+            res.append(['!' + type(e).__name__, root.src])
+    out.append(res)
+print(json.dumps(out))
+'''
+
+
+def stage_value_history(ctx: Ctx):
+    """an option value passed to one call never leaks into a LATER call that passes a value which compares equal but is of another type (False == 0, True == 1: a comment mode
+    vs a line number): every value of a list is used for cut / copy / replace / put_slice in one process, in several orders; each result must be what a fresh process gives
+    for that value alone"""
+    import subprocess
+
+    def run_child(values):
+        enc = [list(v) if isinstance(v, tuple) else v for v in values]
+        p = subprocess.run([sys.executable, '-c', HIST_CHILD], input=json.dumps([HIST_SRC, enc]), capture_output=True, text=True,
+                           env={**os.environ, 'PYTHONPATH': os.path.join(REPO, 'src'), 'PYTHONHASHSEED': '0'}, timeout=300)
+        if p.returncode != 0:
+            raise RuntimeError(p.stderr[-400:])
+        return json.loads(p.stdout)
+
+    def keyv(v):
+        return repr(v)     # repr tells False from 0
+    ref = {}
+    try:
+        for v in dict.fromkeys(keyv(v_) for v_ in HIST_VALUES):
+            val = next(x for x in HIST_VALUES if keyv(x) == v)
+            ref[v] = run_child([val])[0]
+    except Exception as e:
+        ctx.broken.append({'kind': 'harness', 'name': 'value_history', 'detail': repr(e)[:300]})
+        return
+    orders = [list(HIST_VALUES), list(reversed(HIST_VALUES))]
+    for k in range(3):
+        o = list(HIST_VALUES)
+        ctx.rng.shuffle(o)
+        orders.append(o)
+    for order in orders:
+        try:
+            got = run_child(order)
+        except Exception as e:
+            ctx.broken.append({'kind': 'harness', 'name': 'value_history', 'detail': repr(e)[:300]})
+            return
+        for i, (v, res) in enumerate(zip(order, got)):
+            ctx.tick(('value-history', keyv(v), i, tuple(keyv(x) for x in order[:i][-3:])), 'history:trivia-value')
+            if res != ref[keyv(v)]:
+                act = next(a for a, (x, y) in zip(('cut', 'copy', 'replace', 'put_slice'), zip(res, ref[keyv(v)])) if x != y)
+                ctx.violation(f'value-history|trivia|{act}', 'a call with one option value gives another result after earlier calls with other (equal-comparing) values than it gives alone',
+                              {'src': HIST_SRC, 'value': keyv(v), 'earlier_values': [keyv(x) for x in order[:i]][-8:], 'action': act,
+                               'result_after_history': res[('cut', 'copy', 'replace', 'put_slice').index(act)], 'result_alone': ref[keyv(v)][('cut', 'copy', 'replace', 'put_slice').index(act)]})
+                break
+
+
 def run(ctx: Ctx):
     ctx.rule = ('(1) random option traces over 1-3 real threads in generated lock-step interleavings (set_options / options() enter / exit normal or with '
                 'exception / get_option with per-call dict), every option name incl. unknown and call-only names, values from a 43-value universe; model vs '
@@ -702,6 +779,7 @@ def run(ctx: Ctx):
     run_guarded(ctx, stage_call_isolation)
     run_guarded(ctx, stage_option_values_untouched)
     run_guarded(ctx, stage_calls_leave_defaults)
+    run_guarded(ctx, stage_value_history)
     progs = [p for p in corpus(ctx.rng, gen=ctx.scale(10, 40)) if len(p) < 1500]
     run_guarded(ctx, stage_registry_commute_corr)
     run_guarded(ctx, stage_concurrent, progs)
